@@ -74,6 +74,7 @@ structure St where
   pub   : Option String := none   -- resolver: last published
   dead  : Bool := false
   late  : Option Container := none -- model of a subscriber that joined the watch later (ordinary)
+  tag   : String := ""            -- multi-key sections: ` service=<i>` (appended to the monitor messages)
 
 def coverPut (st : St) (k v : Nat) : String :=
   match st.reg.get k with
@@ -117,7 +118,7 @@ def runSubLine (st : St) (r : Report) (sec : Nat) (l : Line) : St × Report := I
       let adds := log.filterMap fun | .add k v => some (k, v) | _ => none
       let rems := log.filterMap fun | .del k => some k | _ => none
       pure [.reload kvs adds rems]
-    | ["cancel"] | ["closech"] => some []
+    | ["cancel"] | ["closech"] | ["idle"] => some []
     | _ => none
   let some evs := evs? | return (st, r.mismatch sec l.idx "bad-op" (joinSp l.op))
   r := { r with ops := r.ops + 1 }
@@ -174,15 +175,15 @@ def runSubLine (st : St) (r : Report) (sec : Nat) (l : Line) : St × Report := I
   let cnt' := expectLog.foldl Spec.exApplyL st.cnt
   let want := showNats (Spec.viewList (if st.excl then cnt' else reg'))
   if want ≠ implValues then
-    r := r.violation sec l.idx s!"view-differs-from-registry spec=[{want}] impl=[{implValues}] excl={st.excl} op=[{joinSp l.op}] registry=[{showMapping reg'}]"
+    r := r.violation sec l.idx s!"view-differs-from-registry spec=[{want}] impl=[{implValues}] excl={st.excl} op=[{joinSp l.op}] registry=[{showMapping reg'}]{st.tag}"
   if st.excl then
     r := r.addCover "exclusive-line"
     if cnt'.length < reg'.length then r := r.addCover "exclusive-displaced-key-present"
   -- listeners: called after every change, and the last call sees the final view
   if implValues ≠ st.prev ∧ (implNoted = "0" ∨ implNoted.contains '/') then
-    r := r.violation sec l.idx s!"view-changed-without-notifying-every-listener before=[{st.prev}] after=[{implValues}] notified={implNoted}"
+    r := r.violation sec l.idx s!"view-changed-without-notifying-every-listener before=[{st.prev}] after=[{implValues}] notified={implNoted}{st.tag}"
   if implLast ≠ "none" ∧ implLast ≠ implValues then
-    r := r.violation sec l.idx s!"listener-saw-stale-view last=[{implLast}] values=[{implValues}]"
+    r := r.violation sec l.idx s!"listener-saw-stale-view last=[{implLast}] values=[{implValues}]{st.tag}"
   if implValues ≠ st.prev then r := r.addCover "view-changed" else r := r.addCover "view-unchanged"
   -- resolver harness: what was published
   let mut pub := st.pub
@@ -615,11 +616,119 @@ def runPubSection (r : Report) (s : Section) : Report := Id.run do
     r := r'
   return r
 
+/-! multi-key sections (`h=multi n=<n> excl=<bits> exact=<0/1>`): several watched keys on ONE cluster
+  put <s> <k> <v> | del <s> <k> | batch <s> … | reloadc <s> <k>:<v>… | connreload <k>:<v>… / <k>:<v>… / … |
+  close <s> | reopen <s> <k>:<v>…
+  => <s>.log= <s>.vals= <s>.map= <s>.values= <s>.notified= <s>.last=  [x.values=] [rewatched=<s,…>] [lost=1]
+Every service is the model / spec / monitor of the single-key sections (`runSubLine`); a reconnect (`connreload`) is a
+reload of EVERY watched key (`MultiCluster.reconnect`, theorem `multi_view_equals_registry`). -/
+
+structure MSt where
+  svcs : List (Nat × St) := []      -- the open services
+
+/-- the tokens `<i>.k=v` of service `i`, prefix stripped -/
+def svcObs (obs : List String) (i : Nat) : List String :=
+  obs.filterMap fun t => if t.startsWith s!"{i}." then some (String.ofList (t.toList.drop (s!"{i}.".length))) else none
+
+def splitSlash : List String → List (List String)
+  | [] => [[]]
+  | t :: ts =>
+    match splitSlash ts with
+    | [] => [[t]]
+    | p :: ps => if t = "/" then [] :: p :: ps else (t :: p) :: ps
+
+def runMultiSection (r : Report) (s : Section) : Report := Id.run do
+  let n := kvNat s.cfg "n" 2
+  let bits := (kvStr s.cfg "excl" "").toList
+  let exact := kvNat s.cfg "exact" 0 = 1
+  let mk (i : Nat) : St :=
+    let excl := bits.getD i '0' == '1'
+    { excl := excl, cl := { cont := Container.new excl }, tag := s!" service={i} of {n} on one cluster" }
+  let mut st : MSt := { svcs := (List.range n).map fun i => (i, mk i) }
+  let mut r := r
+  let mut dead := false
+  for l in s.lines do
+    if dead then
+      r := r.addCover "line-after-deadlock"
+      continue
+    if (kv? l.obs "dead").isSome then
+      dead := true
+      r := r.violation s.idx l.idx s!"reload-deadlocks-while-a-watch-response-is-handled op=[{joinSp l.op}] (several watched keys)"
+      continue
+    -- the operation as seen by every service
+    let parsed : Option (String × Option Nat × (Nat → List String)) :=
+      match l.op with
+      | ["put", sv, k, v] => sv.toNat?.map fun t => ("put", some t, fun i => if i = t then ["put", k, v] else ["idle"])
+      | ["del", sv, k] => sv.toNat?.map fun t => ("del", some t, fun i => if i = t then ["del", k] else ["idle"])
+      | "batch" :: sv :: ts => sv.toNat?.map fun t => ("batch", some t, fun i => if i = t then "batch" :: ts else ["idle"])
+      | "reloadc" :: sv :: ts => sv.toNat?.map fun t => ("reloadc", some t, fun i => if i = t then "reloadc" :: ts else ["idle"])
+      | "connreload" :: ts =>
+        let parts := splitSlash ts
+        if parts.length = n then some ("connreload", none, fun i => "connreload" :: parts.getD i []) else none
+      | ["close", sv] => sv.toNat?.map fun t => ("close", some t, fun _ => ["idle"])
+      | "reopen" :: sv :: ts => sv.toNat?.map fun t => ("reopen", some t, fun i => if i = t then "reload" :: ts else ["idle"])
+      | _ => none
+    let some (kind, target, opOf) := parsed | r := r.mismatch s.idx l.idx "bad-op" (joinSp l.op)
+    let isOpen (i : Nat) : Bool := st.svcs.any (·.1 = i)
+    match target with
+    | some t =>
+      if t ≥ n ∨ (kind = "reopen" ∧ isOpen t) ∨ (kind ≠ "reopen" ∧ !isOpen t) then
+        r := r.mismatch s.idx l.idx "bad-op" (joinSp (l.op ++ ["=>"] ++ l.obs))
+        continue
+    | none => pure ()
+    r := r.addCover s!"multi-{kind}"
+    if kind = "close" then
+      st := { svcs := st.svcs.filter (·.1 ≠ target.getD n) }
+      r := r.addCover "multi-last-listener-of-a-key-leaves"
+    if kind = "reopen" then
+      st := { svcs := sortByFst (st.svcs ++ [(target.getD 0, mk (target.getD 0))]) }
+      r := r.addCover "multi-new-watch-on-a-key-that-was-unmonitored"
+    if st.svcs.length ≥ 2 then r := r.addCover "multi-several-keys-watched" else r := r.addCover "multi-one-key-left"
+    if (kv? l.obs "lost").isSome then r := r.addCover "multi-event-for-a-key-nobody-watches-any-more"
+    -- a reconnect must load and watch every watched key again
+    if kind = "connreload" then
+      let rew := splitComma (kvStr l.obs "rewatched" "")
+      let missing := (st.svcs.map fun p => toString p.1).filter (fun t => !rew.contains t) ++ (if exact && !rew.contains "x" then ["x"] else [])
+      if st.svcs.length ≥ 2 then r := r.addCover "multi-reconnect-with-several-keys"
+      if !missing.isEmpty then
+        r := r.violation s.idx l.idx s!"reconnect-did-not-reload-and-rewatch-every-key missing=[{",".intercalate missing}] rewatched=[{kvStr l.obs "rewatched" ""}] op=[{joinSp l.op}] (later events of these keys are never delivered)"
+    let mut svcs' : List (Nat × St) := []
+    for (i, sti) in st.svcs do
+      let obsI := svcObs l.obs i
+      let opI := opOf i
+      let line : Line :=
+        if kind = "reopen" ∧ target = some i then
+          -- the new subscriber loaded the snapshot inside NewSubscriber: the order handleChanges ranged in is read off vals=
+          let kvs := (parsePairs (opI.drop 1)).getD []
+          let new := ofKVs kvs
+          let order := keysOfVals (kvStr obsI "vals" "")
+          let adds := new.filter (fun kv => !order.contains kv.1) ++ order.filterMap (fun k => new.find? (·.1 = k))
+          { l with op := opI, obs := [s!"log={showLog (adds.map fun kv => LEv.add kv.1 kv.2)}", s!"notified={adds.length}"]
+                          ++ obsI.filter (fun t => !(t.startsWith "log=") && !(t.startsWith "notified=")) }
+        else { l with op := opI, obs := obsI }
+      let (sti', r') := runSubLine sti r s.idx line
+      r := r'
+      svcs' := svcs' ++ [(i, sti')]
+    st := { svcs := svcs' }
+    -- the exact-match subscriber (WithExactMatch on key 0 of service 0): the value of that key, if registered
+    if exact then
+      match st.svcs.find? (·.1 = 0) with
+      | some (_, st0) =>
+        let want := match st0.reg.get 0 with | some v => toString v | none => ""
+        let impl := kvStr l.obs "x.values" "?"
+        r := r.addCover (if want = "" then "exact-key-absent" else "exact-key-registered")
+        if want ≠ impl then
+          r := r.violation s.idx l.idx s!"exact-match-view-differs-from-registry spec=[{want}] impl=[{impl}] op=[{joinSp l.op}] registry=[{showMapping st0.reg}]"
+      | none => pure ()
+    else if (kv? l.obs "x.values").isSome then r := r.mismatch s.idx l.idx "x.values=<absent>" "x.values=<present>"
+  return r
+
 def runSection (r : Report) (s : Section) : Report := Id.run do
   if kvStr s.cfg "h" "" = "pub" then return runPubSection r s
   if kvStr s.cfg "h" "" = "kube" then return runKubeSection r s
   if kvStr s.cfg "h" "" = "conc" then return runConcSection r s
   if kvStr s.cfg "h" "" = "build" then return runBuildSection r s
+  if kvStr s.cfg "h" "" = "multi" then return runMultiSection r s
   let excl := kvNat s.cfg "excl" 0 = 1
   let mut st : St := { excl := excl, cl := { cont := Container.new excl } }
   let mut r := r
